@@ -67,7 +67,7 @@ class Round(Contract):
         n = nelem(cfg['shape'])
         c = cfg['carrier']
         if c in ('f64', 'f64scalar', 'objfloat'):
-            return {'v': [D.real('v%d' % i, -2**62, 2**62) for i in range(n)]}
+            return {'v': [D.real('v%d' % i) for i in range(n)]}          # any real (any finite double)
         if c == 'u64':
             return {'v': [D.int('v%d' % i, 0, 2**64 - 1) for i in range(n)]}
         if c == 'i64':
@@ -92,7 +92,7 @@ class Round(Contract):
             return {}
         out = {}
         rs = elems(obs['r'])
-        isfloat = cfg['carrier'] in ('f64', 'f64scalar')
+        isfloat = cfg['carrier'] in ('f64', 'f64scalar', 'objfloat')
         out['count'] = len(rs) == len(inp['v'])
         for i, (v, r) in enumerate(zip(inp['v'], rs)):
             v, r = M(v), M(r)
@@ -102,13 +102,24 @@ class Round(Contract):
                 out['identity[%d]' % i] = eq(r, v)
         if not isfloat:
             out['unchanged_object'] = obs['same_object']
+        if cfg['carrier'] == 'objfloat':
+            out['object_stays_object'] = obs['r'].dtype == object if hasattr(obs['r'], 'dtype') else True
         return out
 
     def stubs(self, P):
         def _round(self, val, method='floor'):
-            if isinstance(val, int) or P.np.issubdtype(P.np.array(val).dtype, P.np.integer) or P.np.issubdtype(P.np.array(val).dtype, P.np.object_):
+            if isinstance(val, int) or P.np.issubdtype(P.np.array(val).dtype, P.np.integer):
                 return val
             a = P.np.asarray(val)
+            if a.dtype == object:
+                e0 = elems(a)[0] if a.size else 0
+                from fxpv.core import kind_of, SNum as _SN, SBool as _SB
+                isfl = isinstance(e0, float) or (isinstance(e0, _SN) and kind_of(e0) != 'int')
+                if not isfl:
+                    return val
+                core_assert(method in ROUNDINGS, '_round.pre: method is one of the five rules')
+                el = [as_float(unM(ROUND(M(e), method))) for e in elems(a)]
+                return P.arr(el, dtype=object, shape=a.shape)
             core_assert(method in ROUNDINGS, '_round.pre: method is one of the five rules')
             el = [as_float(unM(ROUND(M(e), method))) for e in elems(a)]
             r = P.arr(el, dtype='float64', shape=a.shape)
@@ -145,7 +156,7 @@ class OverflowAction(Contract):
         wide = [(True, 64), (False, 64), (True, 65), (False, 128), (True, 256)]
         for signed, n in fm:
             for mode in OVERFLOWS:
-                for carrier in ('f64', 'i64'):
+                for carrier in ('f64', 'i64', 'f64big') + (('f64huge',) if mode == 'saturate' else ()):
                     for shape in scalar_shapes(tier):
                         yield dict(signed=signed, n_word=n, mode=mode, carrier=carrier, shape=list(shape))
         for signed, n in wide:
@@ -159,8 +170,16 @@ class OverflowAction(Contract):
         c = cfg['carrier']
         if c == 'f64':
             v = [D.int('r%d' % i, -2**53, 2**53) for i in range(n)]     # integral doubles (output of _round)
+        elif c == 'f64big':
+            # integral doubles beyond 2^53 (multiples of 2^10) up to the core-domain bound 2^62
+            v = [D.dyadic('r%d' % i, -10, -2**53 + 1, 2**53 - 1) for i in range(n)]
+        elif c == 'f64huge':
+            # any finite magnitude (saturate): multiples of 2^900
+            v = [D.dyadic('r%d' % i, -900) for i in range(n)]
         elif c == 'i64':
-            v = [D.int('r%d' % i, -2**62, 2**62) for i in range(n)]
+            v = [D.int('r%d' % i, -2**63, 2**63 - 1) for i in range(n)]
+        elif c == 'u64':
+            v = [D.int('r%d' % i, 0, 2**64 - 1) for i in range(n)]
         elif c == 'objint':
             v = [D.int('r%d' % i) for i in range(n)]
             assume_no_int64_uint64_mix(D, v)
@@ -172,7 +191,7 @@ class OverflowAction(Contract):
         cb = RecCallback()
         x = make_fxp(P, cfg['signed'], cfg['n_word'], 0, cfg={'overflow': cfg['mode']}, status=inp['st'], callbacks=[cb])
         before = dict(x.__dict__)
-        dt = {'f64': 'float64', 'i64': 'int64', 'objint': object, 'objfloat': object}[cfg['carrier']]
+        dt = {'f64': 'float64', 'f64big': 'float64', 'f64huge': 'float64', 'i64': 'int64', 'u64': 'uint64', 'objint': object, 'objfloat': object}[cfg['carrier']]
         vals = inp['r']
         new_val = P.arr(vals, dtype=dt, shape=tuple(cfg['shape']))
         lo, hi = range_of(cfg['signed'], cfg['n_word'])
@@ -186,7 +205,7 @@ class OverflowAction(Contract):
         signed, n, mode = cfg['signed'], cfg['n_word'], cfg['mode']
         lo, hi = range_of(signed, n)
         out = {'frame': obs['frame_ok'], 'shape': list(shape_of(obs['r'])) == cfg['shape']}
-        rs = [M(r) for r in inp['r']]
+        rs = [M(r) if cfg['carrier'] == 'objfloat' else M(int_value(r)) for r in inp['r']]
         for i, (r, o) in enumerate(zip(rs, elems(obs['r']))):
             if cfg['carrier'] == 'objfloat':
                 # un-rounded floats are only ever saturated (|v| >= 2^64 path): clamp, value kept otherwise
@@ -213,6 +232,11 @@ class OverflowAction(Contract):
             core_assert(self.config.overflow in OVERFLOWS, '_overflow_action.pre: valid overflow mode')
             a = P.np.asarray(new_val)
             rs = [M(int_value(e)) for e in elems(a)]
+            if a.dtype != object:
+                # verified domain of the contract: integral values; beyond 2^62 only under saturate
+                core_assert(unM(And(*[is_int(r) for r in rs])), '_overflow_action.pre: integral values (output of _round)')
+                if self.config.overflow == 'wrap' and a.dtype.kind == 'f':
+                    core_assert(unM(And(*[And(r < 2**63, r > -2**63) for r in rs])), '_overflow_action.pre: |value| < 2^63 for float data under wrap (int64 cast)')
             any_hi = unM(Or(*[r > hi for r in rs])); any_lo = unM(Or(*[r < lo for r in rs]))
             # flags and callbacks (exactly as the contract's ensures; forks on what occurred)
             if any_hi:
@@ -297,13 +321,20 @@ class SetVal(Contract):
                 yield dict(signed=signed, n_word=n, n_frac=f, rule=rule, mode=mode, carrier='i64', shape=[2], raw=True, index=None)
                 yield dict(signed=signed, n_word=n, n_frac=f, rule=rule, mode=mode, carrier='pyfloat', shape=[], raw=False, index=1)
                 yield dict(signed=signed, n_word=n, n_frac=f, rule=rule, mode=mode, carrier='pyfloat', shape=[], raw=True, index=None)
+                if mode == 'saturate' and f >= 0:
+                    # float inputs of ANY finite magnitude under saturate (|v * 2^n_frac| <= DBL_MAX)
+                    yield dict(signed=signed, n_word=n, n_frac=f, rule=rule, mode=mode, carrier='bigfloat', shape=[], raw=False, index=None)
+                    yield dict(signed=signed, n_word=n, n_frac=f, rule=rule, mode=mode, carrier='bigf64', shape=[2], raw=False, index=None)
 
     def inputs(self, cfg, D):
         n = nelem(cfg['shape'])
         f = cfg['n_frac']
         c = cfg['carrier']
         lim = min(Fraction(2**53), Fraction(2**62) * pow2(-f)) if not cfg['raw'] else Fraction(2**53)
-        if c in ('pyfloat', 'f64', 'list'):
+        if c in ('bigfloat', 'bigf64'):
+            big = Fraction(int((2**53 - 1) * 2**971)) * pow2(-f) / 2
+            v = [D.real('v%d' % i, -big, big) for i in range(n)]
+        elif c in ('pyfloat', 'f64', 'list'):
             v = [D.real('v%d' % i, -lim, lim, True, True) for i in range(n)]
         elif c in ('pyint', 'i64'):
             li = int(lim) if lim == int(lim) else int(lim) + 1
@@ -324,12 +355,12 @@ class SetVal(Contract):
         cfg_before = dict(x.config.__dict__)
         c = cfg['carrier']
         v = inp['v']
-        if c in ('pyfloat', 'pyint') or (c == 'code' and cfg['shape'] == []):
+        if c in ('pyfloat', 'pyint', 'bigfloat') or (c == 'code' and cfg['shape'] == []):
             val = v[0]
         elif c == 'list':
             val = list(v)
         else:
-            val = P.arr(v, dtype={'f64': 'float64', 'i64': 'int64', 'code': 'float64'}[c], shape=tuple(cfg['shape']))
+            val = P.arr(v, dtype={'f64': 'float64', 'i64': 'int64', 'code': 'float64', 'bigf64': 'float64'}[c], shape=tuple(cfg['shape']))
         kw = {}
         if cfg['raw']: kw['raw'] = True
         if cfg['index'] is not None: kw['index'] = cfg['index']
@@ -348,8 +379,9 @@ class SetVal(Contract):
         vs = [M(v) for v in inp['v']]
         codes = [M(c) for c in elems(obs['val'])]
         gv = [M(g) for g in elems(obs['getval'])]
+        huge = Or(*[Or(v >= 2**64, v < -2**64) for v in vs]) if cfg['carrier'] in ('bigfloat', 'bigf64') else False
         out = {'frame': obs['frame_ok'], 'returns_self': obs['returns_self'],
-               'val_dtype': obs['val'].dtype == store_dtype(signed, n),
+               'val_dtype': Iff(obs['val'].dtype == object, huge) if cfg['carrier'] in ('bigfloat', 'bigf64') else obs['val'].dtype == store_dtype(signed, n),
                'dtype_str': obs['dtype'] == fmt_str(signed, n, f)}
         idx = cfg['index']
         if idx is None:
